@@ -475,7 +475,20 @@ static string step(const vector<string> &t) {
     }
     for (auto &p : listed) if (p.second > 1) sq = false;
     for (auto &p : db->_make_seq_map) if (!listed.count(p.first)) sq = false;
-    return string("wrapper=") + (wl ? "1" : "0") + " nesting=" + (nl ? "1" : "0") + " unique=" + (un ? "1" : "0") + " seqs=" + (sq ? "1" : "0");
+    // function <-> wrapper <-> type: the `this` parameter of a wrapper is (a pointer to) the class of its function; cast helpers belong to the right class
+    bool th = true;
+    auto strip = [&](int t) { for (int n = 0; n < 8; ++n) { auto it = db->_type_map.find(t); if (it == db->_type_map.end() || !(it->second._flags & InterrogateType::F_wrapped)) break; t = it->second._wrapped_type; } return t; };
+    for (auto &p : db->_wrapper_map) {
+      auto it = db->_function_map.find(p.second._function);
+      if (it == db->_function_map.end() || p.second._parameters.empty()) continue;
+      auto &p0 = p.second._parameters[0];
+      if ((p0._parameter_flags & InterrogateFunctionWrapper::PF_is_this) && strip(p0._type) != it->second->_class) th = false;
+    }
+    for (auto &p : db->_type_map) for (auto &d : p.second._derivations) {
+      if (d._flags & InterrogateType::DF_upcast) { auto it = db->_function_map.find(d._upcast); if (it != db->_function_map.end() && it->second->_class != p.first) th = false; }
+      if (d._flags & InterrogateType::DF_downcast) { auto it = db->_function_map.find(d._downcast); if (it != db->_function_map.end() && it->second->_class != d._base) th = false; }
+    }
+    return string("wrapper=") + (wl ? "1" : "0") + " nesting=" + (nl ? "1" : "0") + " unique=" + (un ? "1" : "0") + " seqs=" + (sq ? "1" : "0") + " this=" + (th ? "1" : "0");
   }
   if (op == "remap" && t.size() == 2) {
     db->check_latest();
